@@ -39,7 +39,11 @@ def run_identities(ck, name, fn, replay=None, timeout_ms=20000, maxpaths=2000, s
         if r == "unsat":
             ck.vacuity_fail("%s path %s" % (name, taken)); continue
         if r == "sat": ck.vacuity_ok("%s path %s" % (name, taken))
-        for label, goal in res["goals"]:
+        base0 = base
+        for label, goal, *rest in res["goals"]:
+            base = base0
+            if rest and rest[0]:        # cut points: (term, fresh constant) pairs substituted in the goal AND in every hypothesis
+                base = [z3.substitute(h, *rest[0]) for h in base0]; goal = z3.substitute(goal, *rest[0])
             oname = "%s/%s@%s" % (name, label, "".join("T" if d is True else "F" if d is False else str(d) for d in taken))
             if z3.is_true(z3.simplify(goal)):                  # syntactically identical terms: nothing to ask the solver
                 ck.ok(oname, "identical terms", stretch); ck.path(oname, n=0); continue
@@ -62,6 +66,7 @@ def run_identities(ck, name, fn, replay=None, timeout_ms=20000, maxpaths=2000, s
                 else:
                     ck.not_reproduced("%s: model %s -> %s" % (oname, vals, detail))
         ck.path(("%s|%s" % (name, taken)))
+        base = base0
         ck.sample(dict(harness=name, path=[str(c)[:80] for c in pc][:6], goals=[g[0] for g in res["goals"]][:8]))
     if expect_paths is not None and npaths != expect_paths:
         ck.inconclusive.append("%s: expected %d paths, explored %d" % (name, expect_paths, npaths))
